@@ -389,15 +389,27 @@ def execute(plan):
     filt = [t for t in A.filter_log]
     dropped = sum(a_ - b_ for a_, b_ in filt)
     stats["probe.pairs_dropped_by_filter"] += dropped
-    judge_pairs(A, A.result, "result", False)
+    # a result produced in the very iteration of the rewrite is the state at the switch: the newest
+    # point must be retained there too
+    stopped_at_switch = bool(sw["at"] > 1 and not any(t[0] >= info["event"] for t in A.up_log) and "state_index" not in switch_state)
+    judge_pairs(A, A.result, "result", stopped_at_switch)
 
     # ---- (c) recovery equivalence on the switched objective
     verdict = "none"
     if sw["mode"] in ("rescale", "reweight") and switch_state.get("state_index", -1) >= 0:
         i = switch_state["state_index"]
         nit = switch_state["nit"]
-        if i + 1 < len(A.states) and A.states[i + 1]["snap"]["nit"] == nit + 1:
-            x_ref = A.states[i + 1]["xk"]
+        # reference = the same run (same rewrite) stopped one iteration after the switch, whatever that
+        # iteration did (a step, or a line search that failed and left x where it was)
+        x_ref = None
+        info_r = {"fired": False}
+        cr = dict(c)
+        cr["maxiter"] = nit + 1
+        Rr = Act(problem, cr, world=World(rewriter=make_rewriter(problem, sw, info_r)), checkpoint=None).run()
+        stats["activations"] += 1
+        if Rr.result is not None and info_r["fired"] and int(Rr.result.nfev) > int(A.states[i]["snap"]["nfev"]):
+            x_ref = np.asarray(Rr.result.x, dtype=float)
+        if x_ref is not None:
             c2 = dict(cfg)
             c2["update"] = None
             verdict, inf, act2 = compare_restart(info["new_problem"], c2, switch_state["eager"], x_ref, nit + 1, sw["seed"], stats)
